@@ -70,7 +70,7 @@ def cases(ctx):
                # block with further targets) or object
                'ac': rng.choice([None] + list(range(m)))}
     names = ops.catalogue_names()
-    for i in range(900 if quick else 20000):
+    for i in range(8000 if quick else 60000):
         spec = gen.rand_frame_spec(rng, 4, 5, dtypes=rng.choice([gen.DTYPES_BASIC, ['int64', 'float64'], ['float64', 'object', 'str'], gen.DTYPES_ALL]),
                                    index_kinds=('auto', 'int', 'str'), column_kinds=('auto', 'int', 'str'), min_cols=1, run_bias=0.7)
         lays = same_dtype_layouts(spec, rng)
